@@ -361,6 +361,10 @@ var fileOps = []fsx.Op{
 	// the working directory of a MemFS worker belongs to its own view: setting it reads the shared tree (as that view's user)
 	{K: "FChdir", H: 1}, {K: "FChdir", H: 2}, {K: "Chdir", P: "/w/a"}, {K: "Chdir", P: "/w/ab"}, {K: "Chdir", P: "/w"}, {K: "Getwd"},
 	{K: "Chmod", P: "/w/a", Perm: 0o711}, {K: "Chmod", P: "/w/a", Perm: 0o777}, {K: "Chown", P: "/w/ab", Uid: 1001, Gid: 1002}, {K: "Chown", P: "/w/ab", Uid: 0, Gid: 0}, {K: "FChmod", H: 2, Perm: 0o755},
+	// the umask of the instance the goroutine uses (its own view on MemFS, the shared instance on OrefaFS) against the calls that create
+	{K: "SetUMask", Perm: 0o027}, {K: "SetUMask", Perm: 0o022}, {K: "UMask"},
+	// the root of the tree: an open handle of it against the call that empties it (only in programs drawn with "wipe")
+	{K: "Open", P: "/", Flag: os.O_RDONLY, H: 4}, {K: "FStat", H: 4}, {K: "FReadDir", H: 4, N: -1}, {K: "FReaddirnames", H: 4, N: 2}, {K: "FClose", H: 4}, {K: "RemoveAll", P: "/"},
 	// the handle shared by two goroutines (slot 9)
 	{K: "FRead", H: 9, N: 3}, {K: "FWrite", H: 9, Data: "s"}, {K: "FSeek", H: 9, Off: 0, Whence: 0}, {K: "FStat", H: 9}, {K: "FReadAt", H: 9, N: 2, Off: 0}, {K: "FWriteAt", H: 9, Data: "S", Off: 1}, {K: "FTruncate", H: 9, Size: 3}, {K: "FName", H: 9},
 }
@@ -403,12 +407,16 @@ func TestCheck(t *testing.T) {
 			hot := rapid.SliceOfN(rapid.SampledFrom(cfg.Paths()), 1, 3).Draw(t, "hot")
 			touched := map[string]int{}
 			writers := 0
+			wipe := strings.HasPrefix(kind, "MemFS") && rapid.IntRange(0, 3).Draw(t, "wipe") == 0
 			for w := 0; w < nw; w++ {
 				var ops []fsx.Op
 				for n := rapid.IntRange(5, 40).Draw(t, "ops"); n > 0; n-- {
 					if rapid.IntRange(0, 3).Draw(t, "file") == 0 {
 						o := fileOps[rapid.IntRange(0, len(fileOps)-1).Draw(t, "fop")]
 						if o.H == 9 && !strings.HasSuffix(kind, "-sharedhandle") {
+							continue
+						}
+						if (o.H == 4 || o.K == "RemoveAll") && !wipe {
 							continue
 						}
 						if (o.K == "Chdir" || o.K == "FChdir") && !strings.HasPrefix(kind, "MemFS") {
